@@ -349,6 +349,54 @@ def seqMon (cap : Nat) : Shared → Array Bool → Nat → List Op → Bool
       decide (available (seqOp sh op).1 = ((cap - 1 - st'.cnt : Nat) : Int)) && seqMon cap (seqOp sh op).1 st'.tbl st'.cnt ops
     | none => false
 
+/-! ### linearization of the concurrent machine (Proofs/C08Lin, `C08_linearizable_partial`)
+
+Linearization points (one atomic operation each, inside the call they belong to): `GetStream` returning an id — its
+successful CAS on the word (`g5 → g7 id`); `Clear(id)` returning true — its successful CAS (`c9 → c11 id`);
+`Clear(id)` returning false — the load that saw the bit clear (`c8`, or `c10` after a failed CAS); `Clear(id)`
+beyond the capacity — the call itself. A failing `GetStream` and `Available()` have none. -/
+
+/-- the (op, answer) linearized by the atomic operation of a thread standing at `pc` -/
+def lpOf (sh : Shared) : PC → List (Op × Option Ret)
+  | .g5 off i j b =>
+      if sh.words.getD ((i + off) % sh.words.length) 0 = b then
+        [(.get, some (.stream (streamFromBucket ((i + off) % sh.words.length) j) true))]
+      else []
+  | .c9 id b => if sh.words.getD (bucketOffset id) 0 = b then [(.clear id, some (.cleared true))] else []
+  | .c8 id =>
+      if bucketOffset id < sh.words.length then
+        (if sh.words.getD (bucketOffset id) 0 &&& mask id ≠ mask id then [(.clear id, some (.cleared false))] else [])
+      else [(.clear id, some .crashIndex)]
+  | .c10 id =>
+      if sh.words.getD (bucketOffset id) 0 &&& mask id ≠ mask id then [(.clear id, some (.cleared false))] else []
+  | _ => []
+
+def linOf (s : State) : Action → List (Op × Option Ret)
+  | .start _ op => lpOf s.sh (startPC op)
+  | .step t => match s.threads[t]? with
+    | some pc => lpOf s.sh pc
+    | none => []
+
+/-- run a schedule (no client protocol; only the actions accepted by `ok`) and collect the linearization:
+    the linearized (op, answer) pairs in the order of their linearization points -/
+def runLin (ok : State → Action → Bool) : State → List Action → Option (State × List (Op × Option Ret))
+  | s, [] => some (s, [])
+  | s, a :: as =>
+    if ok s a then
+      match step s a with
+      | some (s', _) => (runLin ok s' as).map (fun p => (p.1, linOf s a ++ p.2))
+      | none => none
+    else none
+
+/-- the sequential specification accepts a list of (op, answer) pairs (the `Available()` column of `specCheck`
+    left out) -/
+def specAccepts (cap : Nat) : SpecSt → List (Op × Option Ret) → Option SpecSt
+  | st, [] => some st
+  | st, (op, r) :: rest =>
+    match specStep cap st.tbl st.cnt op r with
+    | some st' => specAccepts cap st' rest
+    | none => none
+
 /-! ### "any history": sequential histories in which the rotating offset word is set to an arbitrary value
 
 The offset is the only state of the allocator that depends on the NUMBER of past calls; the harness sets the
